@@ -19,10 +19,12 @@ func init() {
 }
 
 func runC17(c *core.Ctx) {
-	runFixtures(c, "nilguard")
-	c.Explain("Structural clauses of C17 decided from source: (R17.1) for every pointer field of a struct that some method assigns nil (the closed mark of keyvalue.file), every dereference of that field in every other method — including promoted fields/methods of the embedded pointer — is dominated by a non-nil test of the field, directly or at every call site of an unexported helper; (R17.2) every type implementing io/fs.File has a closed state: Close writes a receiver field or delegates to an inner handle's Close, and every other exported method tests that field before its first effect or delegates to the inner handle; (R17.3) the failing side of each closed-guard returns an ErrClosed-class error; (R17.4) every store write-back reachable from a File method happens in a transaction that first looks the path up and skips the write when it no longer exists. NOT claimed: independence of offsets between handles over histories (the offset is a per-handle struct field, inventoried only), equality of the error with os.File's for each call.")
+	runFixtures(c, "nilguard", "pool")
+	c.Explain("Structural clauses of C17 decided from source: (R17.1) for every pointer field of a struct that some method assigns nil (the closed mark of keyvalue.file), every dereference of that field in every other method — including promoted fields/methods of the embedded pointer — is dominated by a non-nil test of the field, directly or at every call site of an unexported helper; (R17.2) every type implementing io/fs.File has a closed state: Close writes a receiver field or delegates to an inner handle's Close, and every other exported method tests that field before its first effect or delegates to the inner handle; (R17.3) the failing side of each closed-guard returns an ErrClosed-class error; (R17.4) every store write-back reachable from a File method happens in a transaction that first looks the path up and skips the write when it no longer exists; (R17.5) path-sensitive form of R17.2: in every exported method of every File type, each return with a nil error lies on a path that loaded the closed mark / inner handle or called another method of the same receiver — a fast path that answers before the check (an empty buffer, a cached value) succeeds on a closed handle; (R17.6) no value of a type implementing io/fs.File is put into a sync.Pool (a recycled struct makes a closed handle work again and lets it move another handle's position). NOT claimed: independence of offsets between handles over histories (the offset is a per-handle struct field, inventoried only), equality of the error with os.File's for each call.")
 	c.Assume("A6: partial correctness", "closers are not invoked from within other methods of the same handle (checked: no static call to a closer from a sibling method)")
 	c.RuleDoc("R17.1", "nullable pointer field: every dereference guarded by a dominating non-nil test")
+	c.RuleDoc("R17.5", "every success return of a handle method lies on a path that consulted the closed mark or delegated")
+	c.RuleDoc("R17.6", "handle values are never recycled through a pool")
 	c.RuleDoc("R17.2", "every File type has a closed state that every method consults or delegates")
 	c.RuleDoc("R17.3", "closed-guard failing edge returns ErrClosed-class error")
 	c.RuleDoc("R17.4", "write-back from a handle is conditional on the path still existing")
@@ -30,12 +32,14 @@ func runC17(c *core.Ctx) {
 		c.SetProg(p)
 		r17Nullable(c, p)
 		r17ClosedState(c, p)
+		r17NoPool(c, p, p.SrcFuncs())
 		if p.Target == load.Linux {
 			r17WriteBack(c, p)
 		}
 	}
 	c.Floor("R17.1", 10)
 	c.Floor("R17.2", 5)
+	c.Floor("R17.5", 30)
 	c.Floor("R17.3", 8)
 	c.Floor("R17.4", 1)
 }
@@ -461,6 +465,49 @@ func r17ClosedState(c *core.Ctx, p *load.Program) {
 				bad = append(bad, mn)
 			}
 		}
+		// R17.5: path-sensitive form — every success return of a method lies on a path that consulted the mark
+		for _, mn := range mnames {
+			fn := ms[mn]
+			if mn == "Close" || fn.Object() == nil || !fn.Object().Exported() || !methodHasEffectOrResult(fn) || fn.Blocks == nil {
+				continue
+			}
+			r := recvParam(fn)
+			eidx := ssax.ErrorResultIndex(fn.Signature)
+			var badRet *ssa.Return
+			complete := ssax.EnumPaths(fn, fn.Blocks[0], 0, nil, ssax.PathHooks{
+				Instr: func(s *ssax.PathState, ins ssa.Instruction) {
+					switch x := ins.(type) {
+					case *ssa.UnOp:
+						if (markField != "" && isLoadOfField(x, r, markField)) || (innerField != "" && isLoadOfField(x, r, innerField)) {
+							s.Counts["consulted"] = 1
+						}
+					case *ssa.Call:
+						if callee := ssax.StaticCallee(x); callee != nil && len(x.Call.Args) > 0 && x.Call.Args[0] == ssa.Value(r) && ms[callee.Name()] == callee {
+							s.Counts["consulted"] = 1
+						}
+					}
+				},
+				End: func(s *ssax.PathState, last ssa.Instruction) {
+					ret, ok := last.(*ssa.Return)
+					if !ok || eidx >= len(ret.Results) {
+						return
+					}
+					ev := s.Resolve(ret.Results[eidx])
+					if s.Counts["consulted"] == 0 && (ssax.IsNilConst(ev) || s.NilOf(ev) == ssax.IsNil) && badRet == nil {
+						badRet = ret
+					}
+				},
+			})
+			k5 := tk + "." + mn + "|success-only-after-closed-check"
+			switch {
+			case !complete:
+				c.Unknown("R17.5", k5, p.Pos(fn.Pos()), "path enumeration exceeded its cap")
+			case badRet != nil:
+				c.Bad("R17.5", k5, p.Pos(badRet.Pos()), fmt.Sprintf("%s returns a nil error on a path that never consulted the closed mark (%s%s) nor delegated to a checked method: on a closed handle this call reports success where os.File fails with ErrClosed", fname(fn), markField, innerField))
+			default:
+				c.OK("R17.5", k5, p.Pos(fn.Pos()), "every success return follows a look at the closed mark or a delegation")
+			}
+		}
 		if len(bad) > 0 {
 			c.Bad("R17.2", key, p.Pos(closeFn.Pos()), fmt.Sprintf("%s: methods %v never consult the closed mark (%s%s) nor delegate to the inner handle: they keep working after Close", tk, bad, markField, innerField))
 		} else {
@@ -594,4 +641,28 @@ func setIsConditional(p *load.Program, fn *ssa.Function, set *ssa.Call, reach ma
 		return any && all
 	}
 	return false
+}
+
+// r17NoPool (R17.6): no value whose type implements io/fs.File is put into a sync.Pool.
+func r17NoPool(c *core.Ctx, p *load.Program, fns []*ssa.Function) {
+	fileI := stdIface(p, "io/fs", "File")
+	for _, fn := range fns {
+		ord := ordinals{}
+		ssax.Instrs(fn, func(ins ssa.Instruction) {
+			cl, ok := ins.(*ssa.Call)
+			if !ok || !ssax.CalleeIs(cl, "sync", "(*Pool).Put") || len(cl.Call.Args) < 2 {
+				return
+			}
+			key := fname(fn) + "|" + ord.next("pool-put")
+			v := cl.Call.Args[1]
+			if mi, ok := v.(*ssa.MakeInterface); ok {
+				v = mi.X
+			}
+			if fileI != nil && types.Implements(v.Type(), fileI) {
+				c.Bad("R17.6", key, p.Pos(cl.Pos()), fmt.Sprintf("%s puts a %s into a sync.Pool: whoever closed that handle still holds the pointer, and once the struct is handed out again the closed handle works again, moves the new handle's position and can close it", fname(fn), typeString(v.Type())))
+			} else {
+				c.OK("R17.6", key, p.Pos(cl.Pos()), "pooled value is not a file handle")
+			}
+		})
+	}
 }
